@@ -144,6 +144,112 @@ theorem runTops_inert (ref regRef : String) (tops : List RTop) (h : tops.all RTo
     | none => simpa using ih' _ _
     | some c => cases c <;> simp [ho, hl, ih']
 
+/-! ### the queued callbacks (state kept between calls)
+
+When the key of a block is in progress (`shouldVisitRef` false) the callback `*x = *v` is only queued and the call
+returns at once (choice `ret`); it runs later, from the deferred `unvisitRef(key, value)` of the call that owns the
+key, with the node that call has just resolved. So inside a block no copy happens synchronously (`RChoice.sync`), and
+what the queued nodes receive is the final `Ref` of the owner's block. -/
+
+def RChoice.sync : RChoice → Bool
+  | .copyReg => false
+  | .copyRegReturn => false
+  | _ => true
+
+/-- without a synchronous copy the registered value plays no role -/
+theorem runTops_sync_regRef (ref a b : String) (tops : List RTop) :
+    ∀ (cs : List RChoice) (cur : String), cs.all RChoice.sync = true →
+      runTops ref a tops cs cur = runTops ref b tops cs cur := by
+  induction tops with
+  | nil => intro cs cur _; rfl
+  | cons t ts ih =>
+    intro cs cur h
+    have ht : cs.tail.all RChoice.sync = true := by
+      cases cs with
+      | nil => rfl
+      | cons c r => simp only [List.all_cons, Bool.and_eq_true] at h; simpa using h.2
+    by_cases hr : t.restore = true
+    · simp only [runTops, hr, if_true]; exact ih _ _ ht
+    · have hr' : t.restore = false := by simpa using hr
+      simp only [runTops, hr', Bool.false_eq_true, if_false]
+      cases cs with
+      | nil => simpa using ih [] cur rfl
+      | cons c r =>
+        simp only [List.all_cons, Bool.and_eq_true] at h
+        have hr2 : r.all RChoice.sync = true := h.2
+        cases c with
+        | skip => simpa using ih r cur hr2
+        | write s => by_cases ho : t.overwrite = true <;> simp [ho, ih r _ hr2]
+        | writeReturn s => by_cases ho : (t.overwrite && t.retAfter) = true <;> simp [ho, ih r _ hr2]
+        | ret => by_cases ho : t.hasReturn = true <;> simp [ho, ih r _ hr2]
+        | copyReg => simp [RChoice.sync] at h
+        | copyRegReturn => simp [RChoice.sync] at h
+
+/-- nodes queued on in-progress keys: (text of the key = the node's own `Ref` when it was queued, its `Ref` now) -/
+def finishKey (key out : String) (queued : List (String × String)) : List (String × String) :=
+  queued.map fun q => if q.1 == key then (q.1, out) else q
+
+/-- every queued node carries the text under which it was queued -/
+def queuedOK (queued : List (String × String)) : Bool := queued.all fun q => q.2 == q.1
+
+/-- one event of a load: a call of the resolver on a node with text `ref` that runs the block (with its control
+    flow) and then, deferred, hands its node to everything queued under its key; or a call that finds its key in
+    progress and queues its node -/
+inductive REvent
+  | run (ref : String) (cs : List RChoice)
+  | queue (ref : String)
+
+/-- the history of a load over the queue; also returns the `Ref` each `run` leaves in its node -/
+def runEvents (tops : List RTop) (regRef : String) : List REvent → List (String × String) → List (String × String) × List (String × String)
+  | [], q => ([], q)
+  | .run ref cs :: es, q =>
+    let out := runTops ref regRef tops cs ref
+    let (outs, q') := runEvents tops regRef es (finishKey ref out q)
+    ((ref, out) :: outs, q')
+  | .queue ref :: es, q => runEvents tops regRef es ((ref, ref) :: q)
+
+def REvent.sync : REvent → Bool
+  | .run _ cs => cs.all RChoice.sync
+  | .queue _ => true
+
+/-- For every history of calls on one loader (any number of blocks run, any nodes queued on keys in progress, in any
+    order): every block leaves its node's `Ref` as written, and every queued node — overwritten by the deferred
+    callback with the owner's node — still carries its own text. No proviso on the registered value. -/
+theorem runEvents_keeps_ref (tops : List RTop) (hok : okFrom false tops = true) (regRef : String) :
+    ∀ (es : List REvent) (q : List (String × String)), es.all REvent.sync = true → queuedOK q = true →
+      queuedOK (runEvents tops regRef es q).1 = true ∧ queuedOK (runEvents tops regRef es q).2 = true := by
+  intro es
+  induction es with
+  | nil => intro q _ hq; exact ⟨rfl, hq⟩
+  | cons e es ih =>
+    intro q hs hq
+    simp only [List.all_cons, Bool.and_eq_true] at hs
+    cases e with
+    | queue ref =>
+      simp only [runEvents]
+      apply ih _ hs.2
+      simp [queuedOK, List.all_cons] at hq ⊢
+      exact hq
+    | run ref cs =>
+      have hout : runTops ref regRef tops cs ref = ref := by
+        rw [runTops_sync_regRef ref regRef ref tops cs ref hs.1]
+        exact refBlock_keeps_ref ref tops cs hok
+      have hq' : queuedOK (finishKey ref ref q) = true := by
+        simp only [queuedOK, finishKey, List.all_map, List.all_eq_true] at hq ⊢
+        intro x hx
+        have := hq x hx
+        by_cases hk : (x.1 == ref) = true
+        · simp [Function.comp, hk]
+          have : x.1 = ref := by simpa using hk
+          exact this.symm
+        · have hk' : (x.1 == ref) = false := by simpa using hk
+          simpa [Function.comp, hk'] using this
+      have := ih (finishKey ref ref q) hs.2 hq'
+      simp only [runEvents, hout]
+      refine ⟨?_, this.2⟩
+      simp only [queuedOK, List.all_cons, Bool.and_eq_true] at this ⊢
+      exact ⟨by simp, this.1⟩
+
 /-- the reference text a node of the tree model carries -/
 def GoV.refText : GoV → String
   | .wrapper ref _ _ => ref
